@@ -873,6 +873,7 @@ def gen_tlc(rng, knobs=None):
         if name == 'AppOpen':
             n0 = args[0]
             sp = spec(rng, big=False)
+            want_witness = k.get('witness', True) and rng.random() < 0.4
             if kind == 'rr':
                 prog.append(['rr', R, sp, {'mode': 'later'}])
             elif kind == 'stream':
@@ -882,6 +883,17 @@ def gen_tlc(rng, knobs=None):
                 src = {'src': 'generator', 'items': items(rng, lib_items, big=False), 'complete_on_last': True} if b.get('lib') else {'src': 'scripted'}
                 pol = dict(src, pub=True, sub=True)
                 prog.append(['channel', R, sp, n0, pol, bool(b.get('haspub')), dict(src) if b.get('haspub') else None, True])
+            if want_witness:
+                # a second, independent interaction shares the connection (its frames share the queues and the link with the
+                # interaction the specification's schedule drives): it must be served completely whatever happens to the first
+                wk = rng.choice(['stream', 'stream', 'rr'])
+                wep = rng.choice(['c', 's'])
+                if wk == 'rr':
+                    prog.append(['rr', wep, spec(rng, big=False), {'mode': 'immediate', 'resp': spec(rng, big=False)}])
+                else:
+                    prog.append(['stream', wep, spec(rng, big=False), rng.choice([1, 2, None]),
+                                 {'src': rng.choice(['generator', 'async_generator']), 'items': items(rng, rng.choice([1, 2, 3]), big=False),
+                                  'complete_on_last': True, 'auto_request': 1}, True])
         elif name == 'SenderStep':
             prog.append(['gate', args[0], 1])
         elif name == 'Deliver':
